@@ -248,7 +248,7 @@ def driver(lib, plans_by_func, module, quick):
                 out.append("show(%r, 'kwskip', lambda: M.%s(%s))" % (f.name, f.name, ", ".join(lits)))
                 recv2 = "RECV " + f.name
                 for i, ((atom, n), v) in enumerate(zip(f.args, combo)):
-                    if req <= i < len(f.args) - 1:
+                    if n in f.defaults and i < len(f.args) - 1:
                         recv2 += atom.recv(n, f.defaults[n][1])
                     else:
                         recv2 += recv_py(atom, n, v)
